@@ -6,7 +6,9 @@
    BodyPartReader.read_chunk/_read_chunk_from_stream/_read_chunk_from_length/_align_base64_chunk/
    read/release/readline, MultipartReader.next/_read_until_first_boundary/_read_boundary/_read_headers/
    _maybe_release_last_part, HeadersParser.parse_headers (strict).
-   Not modelled (explicit outcome FUnmodelled): nested multipart parts, the form-data `_charset_` part.
+   Nested multipart parts are walked depth-first (child reader on the same stream, limits inherited).
+   Not modelled (explicit outcome FUnmodelled): the form-data `_charset_` part, a nested part whose Content-Type is
+   not ASCII, a nested reader abandoned before its closing delimiter.
    Python exceptions are the constructors of [err]; EFuel is the model's own "loop bound exhausted"
    outcome and is proved unreachable for the part-reading loops in Proofs/MultipartTerm.v. *)
 From AV Require Import Lib.Base Lib.BytesX Generated.HttpGen Generated.MultipartGen.
@@ -516,11 +518,49 @@ Fixpoint read_header_lines (fuel : nat) (lines : list bytes) (r : reader) (s : s
 
 Definition all_digits (v : bytes) : bool := negb (is_nil v) && forallb dec_digit v.
 
-Inductive fetched := FPart (hs : list (bytes * bytes)) (p : part) | FNested (hs : list (bytes * bytes)) | FCharset.
+(* parse_mimetype(value): the `boundary` parameter and the subtype, for ASCII values (anything else: not modelled) *)
+Definition is_sq (c : N) : bool := (c =? 32) || (c =? 34).
+Definition strip_with (f : N -> bool) (b : bytes) : bytes :=
+  rstrip_with f ((fix go (r : bytes) : bytes := match r with c :: r' => if f c then go r' else r | [] => [] end) b).
+Definition h_boundary : bytes := [98; 111; 117; 110; 100; 97; 114; 121].
+Definition t_form_data : bytes := [102; 111; 114; 109; 45; 100; 97; 116; 97].
+
+Fixpoint first_boundary_param (items : list bytes) : option bytes :=
+  match items with
+  | [] => None
+  | it :: r =>
+    if is_nil (strip_with is_space_byte it) then first_boundary_param r else
+    let '(k, v) := match split_first 61 it with Some (k, v) => (k, v) | None => (it, []) end in
+    if list_eqb (strip_with is_space_byte (map lower k)) h_boundary then Some (strip_with is_sq v)
+    else first_boundary_param r
+  end.
+Definition mime_boundary (v : bytes) : option bytes :=
+  match split_all 59 v with _ :: items => first_boundary_param items | [] => None end.
+Definition mime_subtype (v : bytes) : bytes :=
+  let full := match split_first 59 v with Some (a, _) => a | None => v end in
+  let full := map lower (strip_with is_space_byte full) in
+  let st := match split_first 47 full with Some (_, b) => b | None => [] end in
+  match split_first 43 st with Some (a, _) => a | None => st end.
+
+Inductive fetched :=
+| FPart (hs : list (bytes * bytes)) (p : part)
+| FNested (hs : list (bytes * bytes)) (child : reader)      (* a nested MultipartReader on the same stream *)
+| FCharset | FOther.
+
+(* _get_part_reader: the nested reader gets its parent's client_max_size, max_field_size, max_headers *)
+Definition nested_reader (r : reader) (boundary : bytes) (form : bool) : reader :=
+  new_reader boundary form (r_max_field r) (r_max_headers r) (r_client_max r).
 
 Definition make_part (r : reader) (hs : list (bytes * bytes)) : res fetched :=
   let ctype := match get_header h_content_type hs with Some v => v | None => [] end in
-  if is_multipart_ctype ctype then Ok (FNested hs) else
+  if is_multipart_ctype ctype then
+    if negb (is_ascii ctype) then Ok FOther else
+    match mime_boundary ctype with
+    | None => Err EValue                                  (* boundary missed *)
+    | Some b => if max_boundary_len <? lenN b then Err EValue
+                else Ok (FNested hs (nested_reader r b (list_eqb (mime_subtype ctype) t_form_data)))
+    end
+  else
   let cd := match get_header h_content_disposition hs with Some v => v | None => [] end in
   if r_form r && contains t_charset_name cd then Ok FCharset else
   let b64 := match get_header h_cte hs with Some v => list_eqb (map lower v) t_base64 | None => false end in
@@ -541,25 +581,33 @@ Definition fetch_next_part (fuel : nat) (r : reader) (s : stream) : res (fetched
     end
   end.
 
-(* _maybe_release_last_part *)
-Definition maybe_release (fuel : nat) (r : reader) (last : option part) (s : stream) : res (reader * stream) :=
+(* what MultipartReader._last_part holds *)
+Inductive lastitem := LNone | LPart (p : part) | LReader (child : reader).
+
+(* _maybe_release_last_part; None = a nested reader that was not read to its end (not modelled: the driver always
+   walks a nested reader to its closing delimiter) *)
+Definition maybe_release (fuel : nat) (r : reader) (last : lastitem) (s : stream) : option (res (reader * stream)) :=
   match last with
-  | None => Ok (r, s)
-  | Some p =>
+  | LNone => Some (Ok (r, s))
+  | LPart p =>
     match release_loop fuel p s with
-    | Err e => Err e
-    | Ok (p', s') => Ok (r_upd r (r_at_eof r) (r_at_bof r) (rev (p_unread p') ++ r_unread r), s')
+    | Err e => Some (Err e)
+    | Ok (p', s') => Some (Ok (r_upd r (r_at_eof r) (r_at_bof r) (rev (p_unread p') ++ r_unread r), s'))
     end
+  | LReader c =>
+    if r_at_eof c then Some (Ok (r_upd r (r_at_eof r) (r_at_bof r) (r_unread c ++ r_unread r), s)) else None
   end.
 
-Inductive nextres := NEnd | NPart (hs : list (bytes * bytes)) (p : part) | NUnmodelled.
+Inductive nextres := NEnd | NPart (hs : list (bytes * bytes)) (p : part)
+                   | NNested (hs : list (bytes * bytes)) (child : reader) | NUnmodelled.
 
 (* MultipartReader.next() *)
-Definition reader_next (fuel : nat) (r : reader) (last : option part) (s : stream) : res (nextres * reader * stream) :=
+Definition reader_next (fuel : nat) (r : reader) (last : lastitem) (s : stream) : res (nextres * reader * stream) :=
   if r_at_eof r then Ok (NEnd, r, s) else
   match maybe_release fuel r last s with
-  | Err e => Err e
-  | Ok (r1, s1) =>
+  | None => Ok (NUnmodelled, r, s)
+  | Some (Err e) => Err e
+  | Some (Ok (r1, s1)) =>
     let rb := if r_at_bof r1
               then match read_until_first_boundary fuel r1 s1 with
                    | Ok (r2, s2) => Ok (r_upd r2 (r_at_eof r2) false (r_unread r2), s2)
@@ -573,6 +621,7 @@ Definition reader_next (fuel : nat) (r : reader) (last : option part) (s : strea
       match fetch_next_part fuel r2 s2 with
       | Err e => Err e
       | Ok (FPart hs p, s3) => Ok (NPart hs p, r2, s3)
+      | Ok (FNested hs c, s3) => Ok (NNested hs c, r2, s3)
       | Ok (_, s3) => Ok (NUnmodelled, r2, s3)
       end
     end
@@ -587,7 +636,9 @@ Inductive api :=
 | ARelease                                  (* await part.release() *)
 | ASkip.                                    (* nothing: next() releases *)
 
-Record partobs := mkObs { o_headers : list (bytes * bytes); o_data : bytes; o_eof : bool }.
+Inductive partobs :=
+| mkObs (o_headers : list (bytes * bytes)) (o_data : bytes) (o_eof : bool)
+| mkNested (o_headers : list (bytes * bytes)).           (* the reader stepped into a nested multipart part *)
 Inductive final := FEnd | FErr (e : err) | FUnmodelled.
 
 Definition run_api (fuel : nat) (a : api) (p : part) (s : stream) : res (bytes * part * stream) :=
@@ -599,25 +650,32 @@ Definition run_api (fuel : nat) (a : api) (p : part) (s : stream) : res (bytes *
   | ASkip => Ok ([], p, s)
   end.
 
-Fixpoint run_parts (n : nat) (fuel : nat) (r : reader) (last : option part) (s : stream) (sched : list api)
-  (acc : list partobs) : list partobs * final :=
+(* depth-first walk: `async for part in reader: if it is a reader, walk it, else apply the next API of the schedule`;
+   [stack] = the readers above the current one *)
+Fixpoint run_parts (n : nat) (fuel : nat) (r : reader) (stack : list reader) (last : lastitem) (s : stream)
+  (sched : list api) (acc : list partobs) : list partobs * final :=
   match n with
   | O => (acc, FErr EFuel)
   | S n' =>
     match reader_next fuel r last s with
     | Err e => (acc, FErr e)
-    | Ok (NEnd, _, _) => (acc, FEnd)
+    | Ok (NEnd, r1, s1) =>
+      match stack with
+      | [] => (acc, FEnd)
+      | parent :: up => run_parts n' fuel parent up (LReader r1) s1 sched acc
+      end
     | Ok (NUnmodelled, _, _) => (acc, FUnmodelled)
+    | Ok (NNested hs c, r1, s1) => run_parts n' fuel c (r1 :: stack) LNone s1 sched (acc ++ [mkNested hs])
     | Ok (NPart hs p, r1, s1) =>
       let '(a, sched') := match sched with [] => (ARead, []) | a :: t => (a, t) end in
       match run_api fuel a p s1 with
       | Err e => (acc, FErr e)
-      | Ok (d, p1, s2) => run_parts n' fuel r1 (Some p1) s2 sched' (acc ++ [mkObs hs d (p_at_eof p1)])
+      | Ok (d, p1, s2) => run_parts n' fuel r1 stack (LPart p1) s2 sched' (acc ++ [mkObs hs d (p_at_eof p1)])
       end
     end
   end.
 
 Definition run (fuel : nat) (boundary : bytes) (form : bool) (max_field max_headers client_max limit : N)
   (segs : list (N * bytes)) (eager : bool) (sched : list api) : list partobs * final :=
-  run_parts fuel fuel (new_reader boundary form max_field max_headers client_max) None
+  run_parts fuel fuel (new_reader boundary form max_field max_headers client_max) [] LNone
             (s_init segs eager limit) sched [].
